@@ -42,7 +42,7 @@ def san_env(flavour):
                           "handle_abort=1:detect_stack_use_after_return=0"
     env["UBSAN_OPTIONS"] = "print_stacktrace=1:halt_on_error=0"
     env["TSAN_OPTIONS"] = "halt_on_error=0:report_signal_unsafe=0:second_deadlock_stack=0:history_size=4:" \
-                          "atexit_sleep_ms=0"
+                          "atexit_sleep_ms=0:exitcode=0"
     return env
 
 
